@@ -1293,17 +1293,13 @@ func ApplyAgileTree(str *segread.AgileTreeReader, aggs *structs.QueryAggregators
 
 func checkIfGrpColsPresent(grpReq *structs.GroupByRequest,
 	mcsr *segread.MultiColSegmentReader, allSearchResults *segresults.SearchResults) (string, bool) {
-	measureInfo, _ := allSearchResults.BlockResults.GetConvertedMeasureInfo()
 	for _, cname := range grpReq.GroupByColumns {
 		if !mcsr.IsColPresent(cname) {
 			return cname, false
 		}
 	}
 
-	for cname := range measureInfo {
-		if !mcsr.IsColPresent(cname) {
-			return cname, false
-		}
-	}
+	// A measure column that does not exist in this segment is not a reason to skip the segment:
+	// its values are null for every record, the groups and their other measures still count.
 	return "", true
 }
